@@ -156,6 +156,21 @@ Proof. exact backoff_reset. Qed.
 Theorem C17_backoff_streak : forall k, bo_run bo_reset (repeat true k) = map bo_delay (seq 0 k).
 Proof. exact backoff_streak. Qed.
 
+(* a Set that returns an error (validate) leaves the session, in particular a
+   pending accepted request, unchanged: inserted anywhere in a history it changes
+   neither the state reached nor the set the peer must converge to.
+   (C17_rejected_set_keeps_pending is by definition of [step]; its tie to the code
+   is the white-box step OSetInvalid and the schedules that inject invalid Sets
+   while a request is pending) *)
+Theorem C17_rejected_set_is_noop : forall c es1 es2 w,
+  run c w (es1 ++ ESetRejected :: es2) = run c w (es1 ++ es2) /\
+  forall acc, last_set (es1 ++ ESetRejected :: es2) acc = last_set (es1 ++ es2) acc.
+Proof. exact rejected_set_is_noop. Qed.
+
+Theorem C17_rejected_set_keeps_pending : forall c w w', step c w ESetRejected = Some w' ->
+  w' = w /\ pending (ws w') = pending (ws w) /\ desired w' = desired w.
+Proof. exact rejected_set_keeps_pending. Qed.
+
 (* duplicate prefixes in one Set: the last one wins *)
 Theorem C17_set_last_wins : forall l x,
   map_of l x = match find (fun p => fst p =? x) (rev l) with Some p => Some (snd p) | None => None end.
